@@ -209,14 +209,26 @@ func checkSocksDecision(p *Prog, r *Report, scan *ssa.Function) {
 			if nw, _ := constString(c.Call.Args[2]); nw != "tcp" && nw != "tcp4" {
 				okDial, whyDial = false, "network is "+nw
 			}
-			addr, isC := c.Call.Args[3].(*ssa.Call)
-			if !isC || calleeFull(&addr.Call) != "fmt.Sprintf" {
-				okDial, whyDial = false, "address is not formatted from the request"
-				continue
+			// the address is "<r.DstIP>:<r.DstPort>", however the string is assembled
+			goodAddr := false
+			for _, sg := range PathsInl(scan).Segs {
+				if !sg.Has(c) {
+					continue
+				}
+				pieces, okE := strEval(sg, c.Call.Args[3], 0)
+				goodAddr = okE && len(pieces) == 3 && strings.HasPrefix(pieces[0], "S:") && strings.HasSuffix(pieces[0], "r.DstIP") &&
+					pieces[1] == "L::" && strings.HasPrefix(pieces[2], "D:") && strings.HasSuffix(pieces[2], "r.DstPort")
+				if !goodAddr {
+					whyDial = "dial address evaluates to " + strings.Join(pieces, " ") + ", expected r.DstIP ':' r.DstPort"
+				}
+				break
 			}
-			elems, okv := VariadicElems(addr.Call.Args[1])
-			if !okv || len(elems) != 2 || !strings.HasSuffix(sx(elems[0], 0), "r.DstIP") || !strings.HasSuffix(sx(elems[1], 0), "r.DstPort") {
-				okDial, whyDial = false, "dial address is not (r.DstIP, r.DstPort)"
+			if !goodAddr {
+				okDial = false
+				if whyDial == "" {
+					whyDial = "address is not formatted from the request"
+				}
+				continue
 			}
 			// ctx argument is Scan's ctx
 			ctxOK := false
@@ -573,7 +585,27 @@ func checkSocksMessages(p *Prog, r *Report, scan *ssa.Function) {
 	// greeting arguments at the call in Scan
 	okG, whyG := false, "no greeting constructor call"
 	var ctor *ssa.Function
+	// the greeting is built in Scan, or once in the package initialiser into a variable that Scan's WriteTo
+	// reads and nothing writes afterwards
+	hosts := []*ssa.Function{scan}
 	for _, b := range scan.Blocks {
+		for _, in := range b.Instrs {
+			if c, ok := in.(*ssa.Call); ok {
+				if f := StaticCallee(&c.Call); f != nil && f.Name() == "WriteTo" && f.Pkg == pkg && len(c.Call.Args) > 0 {
+					if g := globalOfLoad(c.Call.Args[0]); g != nil && g.Pkg == pkg && len(p.StoresToGlobalOutsideInit(g)) == 0 {
+						if init := pkg.Func("init"); init != nil {
+							hosts = append(hosts, init)
+						}
+					}
+				}
+			}
+		}
+	}
+	var blocks []*ssa.BasicBlock
+	for _, h := range hosts {
+		blocks = append(blocks, h.Blocks...)
+	}
+	for _, b := range blocks {
 		for _, in := range b.Instrs {
 			c, ok := in.(*ssa.Call)
 			if !ok {
